@@ -190,6 +190,9 @@ func (c *Controller) HandleVisitor(m *msg.NatHoleVisitor, transporter transport.
 		if !util.ConstantTimeEqString(m.SignKey, util.GetAuthKey(clientCfg.sk, m.Timestamp)) {
 			return fmt.Errorf("xtcp connection of [%s] auth failed", m.ProxyName)
 		}
+		if !slices.Contains(clientCfg.allowUsers, visitorUser) && !slices.Contains(clientCfg.allowUsers, "*") {
+			return fmt.Errorf("xtcp visitor user [%s] not allowed for [%s]", visitorUser, m.ProxyName)
+		}
 		c.sessions[sid] = session
 		return nil
 	}()
